@@ -188,6 +188,24 @@ Proof.
   intros (_ & _ & H & _). vm_compute in H. discriminate.
 Qed.
 
+(* A simulation with nothing registered yet: step still moves the clock (there is
+   no early return for an empty simulation), so a node registered after five
+   empty steps of 7 ms starts at sim time 35 ms. *)
+Example c05_empty_sim_steps :
+  let s0 := init (7 * ms) (7 * ms) (1000 * ms) 0 in
+  let s5 := exec s0 [Step []; Step []; Step []; Step []; Step []] in
+  elapsed s5 = 35 * ms /\ nsteps s5 = 5 /\
+  (forall order, elapsed (fst (fst (step s0 order))) = 7 * ms /\ snd (fst (step s0 order)) = ROk true) /\
+  map t_offset (rts (exec s5 [AddHost (fun _ => sw_const Pend)])) = [35 * ms].
+Proof.
+  cbv zeta. split; [vm_compute; reflexivity|]. split; [vm_compute; reflexivity|]. split.
+  - intro order. unfold step. cbn [rts init]. unfold eff_order. cbn [running_ids running_ids_from filter app].
+    assert (E : filter (is_running_at []) (dedup order) = []).
+    { induction (dedup order) as [|x l IH]; cbn; auto. destruct x; cbn; exact IH. }
+    rewrite E. cbn. split; reflexivity.
+  - vm_compute. reflexivity.
+Qed.
+
 (* Non-vacuity: a history with a late-registered client, a crash and a bounce
    has no failed step, its reads are where the theorems say (3 ms sleep = 3 ms
    of elapsed() with a 1 ms tick; the bounced host's second incarnation starts
@@ -235,4 +253,5 @@ Print Assumptions c05_tokio_sleep_exact.
 Print Assumptions c05_timer_exact_scripted.
 Print Assumptions c05_timer_exact_refuted.
 Print Assumptions c05_failed_step_refuted.
+Print Assumptions c05_empty_sim_steps.
 Print Assumptions c05_nonvacuous.
